@@ -306,3 +306,48 @@ def run_edge(chk, F, rid="R-EDGE"):
                                                         for c in calls(pe["body"])),
            "proc_edge_begin does not add the edge to the template in whose scope the endpoints were resolved",
            "%s:%s" % (pe["file"], pe["line"]))
+
+
+def run_endpoint_null(chk, F, rid="R-ENDPTNULL"):
+    """add_edge sets exactly one of src / srcb (dst / dstb) and nulls the other (R-EDGE).  Every reader of an edge must
+    therefore test the pointer it follows.  (XMLWriter::source / ::target are judged by C20's R-RW.)"""
+    from ..inline import sites_with_conditions, strip
+    chk.rule(rid, "outside the XML writer: every `edge.src->`, `edge.dst->`, `edge.srcb->`, `edge.dstb->` is reached only "
+                  "on a path that has tested that pointer")
+    n = 0
+
+    def endpoint(x):
+        b = None
+        if x.get("k") == "member" and x.get("arrow"):
+            b = strip(x.get("base") or {})
+        elif x.get("k") == "call" and x.get("arrow") and x.get("recv") is not None:
+            b = strip(x["recv"])
+        if isinstance(b, dict) and b.get("k") == "member" and b.get("of") == "UTAP::edge_t" and \
+                b.get("name") in ("src", "dst", "srcb", "dstb"):
+            return b
+        return None
+    for fn in sorted(F.functions.values(), key=lambda f: (f.get("file") or "", f.get("line") or 0)):
+        fl = fn.get("file") or ""
+        if fn.get("body") is None or fl.startswith("/usr") or "/test/" in fl or fl.endswith("xmlwriter.cpp"):
+            continue
+        for site, conds in sites_with_conditions(fn["body"], lambda x: endpoint(x) is not None):
+            b = endpoint(site)
+            txt = short(b)
+            ok = False
+            for c, t in conds:
+                c0, neg = strip(c), False
+                while isinstance(c0, dict) and c0.get("k") == "un" and c0.get("op") == "!":
+                    c0, neg = strip(c0["e"]), not neg
+                s_ = short(c0)
+                if s_ == txt and t != neg:
+                    ok = True
+                if txt in s_ and "nullptr" in s_ and c0.get("k") == "bin" and c0.get("op") in ("==", "!=") and \
+                        ((c0["op"] == "!=") == (t != neg)):
+                    ok = True
+            n += 1
+            chk.ob(rid, "%s|%s" % (fn["name"], b["name"]), ok,
+                   "%s follows %s without testing it: it is null for an edge whose %s is a branchpoint (edge_t::%sb is "
+                   "set instead)" % (fn["q"], txt, "source" if b["name"].startswith("src") else "target", b["name"][:3]),
+                   "%s:%s" % (fn["file"], site.get("l")))
+    if n < 2:
+        raise AnalysisBroken("only %d dereferences of edge endpoints found outside the writer" % n)
